@@ -289,6 +289,7 @@ def run(argv):
     constants_check(chk)
     instance_override_check(chk)
     grain_density_check(chk)
+    model_switch_check(chk)
     # user overrides given on the command line (project with an element-replacement table, ices of replaced elements): the
     # rendered rate constants must be those of the API rendering with the same tables
     from . import c20
@@ -329,6 +330,45 @@ def late_override_check(chk, models):
                           fresh_reaction=fresh[:200])
         elif first == fresh:
             chk.hist["late-override-without-effect"] += 1
+
+
+def model_switch_check(chk):
+    """The dust model is a property of the network that can be assigned (`net.grain_model = …`): after the assignment every rendering
+    uses the laws of the model now selected - also when the network was rendered (its grains looked at) under the former model."""
+    from naunet.network import Network
+    from naunet.species import Species
+    from .rendering import render, Rendered
+    lines = ["CO,FREEZE,NAN,#CO,NAN,NAN,NAN,1.0,0.0,0.0,0,0", "#CO,DESCR,NAN,CO,NAN,NAN,NAN,1.0,0.0,0.0,0,0",
+             "#CO,THERM,NAN,CO,NAN,NAN,NAN,1.0,0.0,0.0,0,0", "H,H,NAN,H2,NAN,NAN,NAN,1.0e-17,0.0,0.0,0,0"]
+    f = chk.scratch / "switch.ucl"
+    f.write_text("\n".join(lines) + "\n")
+
+    def rates(net, tag):
+        path = chk.scratch / f"switch-{tag}"
+        render(net, "dense", path)
+        return [(i, cparse.token_text(rhs), cparse.token_text(c) if c else None) for i, rhs, c in Rendered(path, "dense").rates("k")]
+
+    for first, second in (("rr07x", "hh93"), ("hh93", "rr07x")):
+        try:
+            with silenced():
+                Species.reset()
+                net = Network(filelist=[str(f)], fileformats=["uclchem"], grain_model=first)
+                _ = rates(net, f"{first}-first")
+                net.grain_model = second
+                switched = rates(net, f"{first}-then-{second}")
+                Species.reset()
+                fresh = rates(Network(filelist=[str(f)], fileformats=["uclchem"], grain_model=second), f"{second}-fresh")
+        except Exception as e:
+            chk.hist["model-switch-refused:" + type(e).__name__] += 1
+            continue
+        chk.count(("model-switch", first, second), nontrivial=True)
+        chk.hist["model-switch"] += 1
+        if switched != fresh:
+            i = next((k for k, (a, b) in enumerate(zip(switched, fresh)) if a != b), 0)
+            chk.violation({"kind": "model-switch-stale", "from": first, "to": second},
+                          f"a network rendered under {first}, then assigned grain_model = {second!r}, renders rate statements that a network "
+                          f"built with {second} does not (statement {i}: {switched[i][1][:90] if i < len(switched) else None} instead of "
+                          f"{fresh[i][1][:90] if i < len(fresh) else None})", input=lines)
 
 
 def grain_density_check(chk):
